@@ -401,6 +401,12 @@ def _run_pipeline(tree: ast.Module) -> dict:
         # detector.intermediate, possibly .drop_nodes("last", errors="ignore")
         if isinstance(inter, ast.Call) and isinstance(inter.func, ast.Attribute) and inter.func.attr == "drop_nodes":
             inter = _resolve(inter.func.value, env)
+        # C01's repair: an empty 'intermediate' tree stands in while no model has recorded anything:
+        #   xr.DataTree(name="intermediate") if detector._intermediate is None else detector.intermediate
+        if isinstance(inter, ast.IfExp) and ast.unparse(inter.test) == "detector._intermediate is None" \
+                and isinstance(inter.body, ast.Call) and ast.unparse(inter.body.func) in ("xr.DataTree", "DataTree") \
+                and not inter.body.args:
+            inter = inter.orelse
         out["inter_src"] = ast.unparse(inter)
     else:
         out["inter_src"] = ""
